@@ -39,7 +39,8 @@ META = {
         "tag, and each run_directive call is restricted to the matching tag; both html handlers hand token.content to "
         "html_to_nodes and attach all returned nodes; every class test (`'admonition' in ...`, title detection) is a word test on the "
         "white-space split class list, not a substring test on the attribute text; the fragment is tokenized by a parser object built "
-        "(or reset) for that fragment, because html.parser keeps buffered text and its CDATA mode between feed() calls. R2: the finite language of the GFM filter regex (enumerated from the "
+        "(or reset) for that fragment, because html.parser keeps buffered text and its CDATA mode between feed() calls; between "
+        "tokenizing and the gate only nodes whose rendering is white space (blank text) are discarded, and not recursively. R2: the finite language of the GFM filter regex (enumerated from the "
         "re._parser tree) is exactly '<' ['/'] tag for the nine tags of the GFM 'Disallowed Raw HTML' extension, it is "
         "case-insensitive, the tag-name terminator look-ahead covers all HTML tag-name terminators and no name character, the "
         "replacement removes the '<', no count limit, the substitution is conditional on gfm_only alone and dominates every use "
@@ -647,6 +648,8 @@ def r1_pass_through(corpus: Corpus, rep: Report, tier: str):
         raise Unsupported("no class membership test found in the html_to_nodes module")
     # (d3) the fragment is tokenized by a parser that carries no state from earlier fragments
     _fresh_tokenizer(cx, rep)
+    # (d4) between tokenizing and the gate nothing but white-space text is discarded; inner white space is kept
+    _pre_gate_tree(cx, rep, gate)
     # (e) callers
     dotted_h2n = f"{cx.mod.name}.{fi.qualname}"
     callers = []
@@ -751,6 +754,121 @@ def _self_class_text(v) -> bool:
     if isinstance(v, ast.Subscript) and dotted(v.value) == "self" and isinstance(v.slice, ast.Constant) and v.slice.value == "class":
         return True
     return isinstance(v, ast.Call) and isinstance(v.func, ast.Attribute) and v.func.attr == "get" and dotted(v.func.value) == "self" and bool(v.args) and isinstance(v.args[0], ast.Constant) and v.args[0].value == "class"
+
+
+def _is_tokenizer_call(cx: Ctx, c: ast.AST) -> bool:
+    if not (isinstance(c, ast.Call) and dotted(c.func)):
+        return False
+    fn = cx.corpus.find_function(cx.mod.resolve(dotted(c.func)))
+    return fn is not None and fn.module.name.endswith("parse_html") and any(isinstance(x, ast.Name) and x.id == cx.p_text for a in c.args for x in ast.walk(a))
+
+
+def _pre_gate_tree(cx: Ctx, rep: Report, gate: dict) -> None:
+    """The elements the gate quantifies over are all top-level nodes of the tokenized fragment except white-space text:
+    anything else that is dropped first (a blank comment, ``<?>``) would let `<!-- --><img ...>` be converted and the
+    dropped markup be lost instead of the block passing through."""
+    fi, m = cx.fi, cx.mod
+    root = gate["root"]
+    defs = cx.defs_of(root) if root.isidentifier() else []
+    if not defs or not all(isinstance(d, ast.expr) for d in defs):
+        raise Unsupported(f"the gated collection `{root}` is not a plainly assigned local")
+    chain: list[ast.Call] = []
+    bases = 0
+    for d in defs:
+        e = d
+        while isinstance(e, ast.Call) and isinstance(e.func, ast.Attribute) and not _is_tokenizer_call(cx, e):
+            chain.append(e)
+            e = e.func.value
+        if _is_tokenizer_call(cx, e):
+            bases += 1
+        elif not (isinstance(e, ast.Name) and e.id == root and e is not d):  # `root = root.strip(...)` as a second step
+            raise Unsupported(f"`{root}` is not the tokenized text (optionally stripped): {short(d, 60)}")
+    if bases != 1:
+        raise Unsupported(f"`{root}` is tokenized {bases} times")
+    el = cx.corpus.cls("parsers.parse_html:Element")
+    for call in chain:
+        meth = cx.corpus.lookup_method(el, call.func.attr)
+        if call.func.attr != "strip" or meth is None:
+            raise Unsupported(f"cannot tell whether `.{call.func.attr}(...)` keeps every top-level node of the fragment")
+        _judge_element_strip(cx, rep, meth)
+    # Element.strip calls in html_to_nodes must not recurse: white space between inline tags inside the admonition is content
+    lv = set()
+    for n in fi.local_nodes():
+        if isinstance(n, ast.For) and isinstance(n.target, ast.Name) and unparse(n.iter) == root:
+            lv.add(n.target.id)
+    for n in fi.local_nodes():
+        if isinstance(n, ast.Call) and isinstance(n.func, ast.Attribute) and n.func.attr == "strip":
+            recv = n.func.value
+            if not (_is_tokenizer_call(cx, recv) or (isinstance(recv, ast.Name) and (recv.id in lv or recv.id == root))):
+                continue
+            meth = cx.corpus.lookup_method(el, "strip")
+            if meth is None:
+                raise AnchorMissing("Element.strip not found")
+            ps = meth.params[1:]
+            r = arg_or_kw(n, ps.index("recurse"), "recurse") if "recurse" in ps else None
+            if r is None:
+                a = meth.node.args
+                dflt = dict(zip([x.arg for x in a.args][-len(a.defaults):], a.defaults)).get("recurse") if a.defaults else None
+                r = dflt
+            k = f"{fi.fq}|{short(n, 60)}|inner white space kept"
+            if r is None or (isinstance(r, ast.Constant) and not r.value):
+                rep.ok("C17.R1", k, m.site(n), "strip is not recursive")
+            elif isinstance(r, ast.Constant):
+                rep.violation("C17.R1", k, m.site(n), f"`{short(n, 50)}` strips recursively: white-space text between inline elements inside the admonition body (`<b>a</b> <i>b</i>`) is removed before the body is rendered back to Markdown, so the inner content is not carried over unchanged")
+            else:
+                raise Unsupported(f"recurse argument of `{short(n, 50)}` is not a literal")
+
+
+def _judge_element_strip(cx: Ctx, rep: Report, meth: FunctionInfo) -> None:
+    pm = meth.module
+    comps = [n for n in meth.local_nodes() if isinstance(n, (ast.ListComp, ast.GeneratorExp)) and n.generators and n.generators[0].ifs]
+    if len(comps) != 1 or len(comps[0].generators) != 1 or len(comps[0].generators[0].ifs) != 1 or not isinstance(comps[0].generators[0].target, ast.Name):
+        raise Unsupported(f"{meth.qualname}: expected one filtering comprehension over the children")
+    comp = comps[0]
+    var = comp.generators[0].target.id
+    if not (isinstance(comp.elt, ast.Name) and comp.elt.id == var):
+        raise Unsupported(f"{meth.qualname}: the filtering comprehension rewrites its elements")
+    cond = comp.generators[0].ifs[0]
+    k = f"{meth.fq}|discards only white-space text"
+    site = pm.site(cond)
+    if not (isinstance(cond, ast.UnaryOp) and isinstance(cond.op, ast.Not)):
+        raise Unsupported(f"{meth.qualname}: filter is not `if not (<what is dropped>)`: {short(cond, 60)}")
+    dropped = cond.operand
+    conj = dropped.values if isinstance(dropped, ast.BoolOp) and isinstance(dropped.op, ast.And) else [dropped]
+    classes: list[str] | None = None
+    blank = False
+    for c in conj:
+        if isinstance(c, ast.Call) and dotted(c.func) == "isinstance" and len(c.args) == 2 and isinstance(c.args[0], ast.Name) and c.args[0].id == var:
+            t = c.args[1]
+            names = [dotted(x) for x in (t.elts if isinstance(t, ast.Tuple) else [t])]
+            if any(n is None for n in names):
+                raise Unsupported(f"{meth.qualname}: isinstance target not understood")
+            classes = (classes or []) + names
+        elif unparse(c) in (f"{var}.data.strip() == ''", f"not {var}.data.strip()", f"{var}.data.isspace()", f"'' == {var}.data.strip()", f"len({var}.data.strip()) == 0"):
+            blank = True
+        else:
+            raise Unsupported(f"{meth.qualname}: drop condition not understood: {short(c, 60)}")
+    if not classes:
+        raise Unsupported(f"{meth.qualname}: drop condition has no isinstance test")
+    if not blank:
+        rep.violation("C17.R1", k, site, f"strip() discards every {'/'.join(classes)} node, blank or not: text next to a convertible element (`text <img ...>`) is lost and the block converted instead of passing through")
+        return
+    bad = []
+    for cname in classes:
+        ci = cx.corpus.find_class(pm.resolve(cname))
+        if ci is None:
+            raise Unsupported(f"{meth.qualname}: class {cname} not found in the package")
+        for c_ in [ci] + cx.corpus.subclasses(ci):
+            r = cx.corpus.lookup_method(c_, "render")
+            rets = [n for n in r.local_nodes() if isinstance(n, ast.Return)] if r is not None else []
+            verbatim = r is not None and len(rets) == 1 and unparse(rets[0].value) == "self.data"
+            if not verbatim:
+                how = short(rets[0].value, 30) if len(rets) == 1 else "not its data verbatim"
+                bad.append(f"{c_.name} (renders {how})")
+    if bad:
+        rep.violation("C17.R1", k, site, f"strip() also discards blank nodes whose rendering is not white space: {', '.join(bad)}. `<!-- --><img src=a.png>` loses the comment and is converted to an image instead of the whole block passing through as raw HTML")
+    else:
+        rep.ok("C17.R1", k, site, f"dropped: blank {'/'.join(classes)} (rendered verbatim, i.e. white space)")
 
 
 def _fresh_tokenizer(cx: Ctx, rep: Report) -> None:
@@ -2019,6 +2137,22 @@ def mutants(corpus: Corpus):
         sp = find_node(pc, lambda n: isinstance(n, ast.Call) and isinstance(n.func, ast.Attribute) and n.func.attr == "split")
         if sp is not None:
             add("c17-classes-property-unsplit", "C17.R1", splice(pc.module.src, sp, ast.get_source_segment(pc.module.src, sp.func.value)), "class test", rel_=pc.module.rel)
+    # ---- R1: nothing but white-space text is dropped before the gate ----
+    est = corpus.lookup_method(corpus.cls("parsers.parse_html:Element"), "strip")
+    if est is not None:
+        iso = find_node(est, lambda n: isinstance(n, ast.Call) and dotted(n.func) == "isinstance" and isinstance(parent(n), ast.BoolOp))
+        if iso is not None and isinstance(iso.args[1], ast.Name):
+            ps_ = est.module.src
+            add("c17-strip-drops-blank-terminals", "C17.R1", splice(ps_, iso.args[1], "TerminalElement"), "discards only white-space text", rel_=est.module.rel, note="seed class: blank comments/PIs vanish before the gate")
+            add("c17-strip-drops-blank-comments", "C17.R1", splice(ps_, iso.args[1], f"({iso.args[1].id}, Comment)"), "discards only white-space text", rel_=est.module.rel)
+            add("c17-strip-drops-all-text", "C17.R1", splice(ps_, parent(iso), ast.get_source_segment(ps_, iso)), "discards only white-space text", rel_=est.module.rel)
+        else:
+            out.append(("c17-strip-mutants", "Element.strip filter has no `isinstance(e, X) and ...` test"))
+    rec = find_node(fi, lambda n: isinstance(n, ast.keyword) and n.arg == "recurse" and isinstance(n.value, ast.Constant) and n.value.value is False)
+    if rec is not None:
+        add("c17-root-stripped-recursively", "C17.R1", splice(src, rec.value, "True"), "inner white space kept")
+    else:
+        out.append(("c17-root-stripped-recursively", "no recurse=False keyword in html_to_nodes"))
     tk = corpus.find_function(m.resolve("tokenize_html"))
     if tk is not None:
         asg = find_stmt(tk, lambda s_: isinstance(s_, ast.Assign) and isinstance(s_.value, ast.Call) and corpus.find_class(tk.module.resolve(dotted(s_.value.func) or "")) is not None)
